@@ -23,6 +23,7 @@ import (
 	"encoding/json"
 	"errors"
 	"fmt"
+	"io"
 	"net"
 	"runtime"
 	"sort"
@@ -37,7 +38,7 @@ import (
 type c17LLIn struct {
 	Init uint32    `json:"init"`
 	M    int64     `json:"M"`
-	Ops  [][]int64 `json:"ops"` // [0] Accept | [1] Offer conn | [2] Offer permanent error | [3,i] Close conn i, [3,i,1] Close conn i whose inner Close reports an error | [4,n] SetMaxConnection(n) | [5] Offer temporary error (net.Error)
+	Ops  [][]int64 `json:"ops"` // [0] Accept | [1] Offer conn | [2] Offer permanent error | [3,i] Close conn i, [3,i,1] Close conn i whose inner Close reports an error | [4,n] SetMaxConnection(n) | [5] Offer temporary error (net.Error) | [6,i,kind] Read on conn i fails (0 timeout, 1 EOF, 2 other), conn stays open
 }
 
 type c17LLStep struct {
@@ -62,13 +63,30 @@ type c17Addr struct{}
 func (c17Addr) Network() string { return "c17" }
 func (c17Addr) String() string  { return "c17" }
 
+// c17TimeoutErr is what a Read returns when its deadline has passed (net/http aborts the
+// background read of an idle keep-alive connection that way): the connection stays open.
+type c17TimeoutErr struct{}
+
+func (c17TimeoutErr) Error() string   { return "c17: i/o timeout" }
+func (c17TimeoutErr) Timeout() bool   { return true }
+func (c17TimeoutErr) Temporary() bool { return true }
+
 type c17Conn struct {
 	id        int64
 	closes    int64
+	readKind  int32 // what the next Read returns: 0 timeout (net.Error), 1 io.EOF (peer half-closed), 2 another error
 	failClose int32 // 1: Close really closes but reports an error (e.g. ENOTCONN after a peer reset)
 }
 
-func (c *c17Conn) Read(b []byte) (int, error)  { return 0, errors.New("c17: eof") }
+func (c *c17Conn) Read(b []byte) (int, error) {
+	switch atomic.LoadInt32(&c.readKind) {
+	case 0:
+		return 0, c17TimeoutErr{}
+	case 1:
+		return 0, io.EOF
+	}
+	return 0, errors.New("c17: read error")
+}
 func (c *c17Conn) Write(b []byte) (int, error) { return len(b), nil }
 func (c *c17Conn) Close() error {
 	atomic.AddInt64(&c.closes, 1)
@@ -338,6 +356,28 @@ func c17LLExec(in c17LLIn) (obs c17LLObs) {
 				}
 				r.sync(0)
 			}
+		case 6:
+			// a Read on the wrapped connection fails (time-out, EOF after a half-close, other) while the
+			// connection stays open: its permit stays with it - only Close gives it back
+			r.mu.Lock()
+			c := r.conns[op[1]]
+			isClosed := r.closed[op[1]]
+			r.mu.Unlock()
+			if c != nil && !isClosed {
+				if len(op) >= 3 {
+					atomic.StoreInt32(&r.inners[op[1]].readKind, int32(op[2]))
+				}
+				buf := make([]byte, 8)
+				func() {
+					defer func() {
+						if rec := recover(); rec != nil {
+							r.panics++
+						}
+					}()
+					c.Read(buf)
+				}()
+				r.sync(0)
+			}
 		case 4:
 			n := op[1]
 			if n > r.snap.Size {
@@ -420,6 +460,8 @@ func c17LLGen(r *vfRand, adv bool) c17LLIn {
 			} else {
 				in.Ops = append(in.Ops, []int64{2})
 			}
+		case x < 13:
+			in.Ops = append(in.Ops, []int64{6, int64(r.Intn(int(offered) + 1)), int64(r.Intn(3))})
 		case x < 16:
 			// close: mostly an existing connection, sometimes twice, sometimes one never accepted
 			id := int64(r.Intn(int(offered) + 1))
